@@ -2,6 +2,7 @@
 import json
 import os
 import vf
+import plugincheck, plugingen
 from vf import cN, cbool, cstr, clist, cpair, copt
 
 IMPORTS = ("From Coq Require Import List Ascii String NArith ZArith Bool.\n"
@@ -305,6 +306,31 @@ def daemon_phase(ctx, rng, n):
                            "cache_reads_by_the_daemon": o.get("cache_reads")}, found=True, theorem="ipinfos_end_to_end")
 
 
+def mon_c13_bind(h, o, nwf, keys):
+    """what Bind writes into the pod's annotation (the ipinfos the CNI plugin will configure) is what galaxy-ipam holds for the
+    pod: one entry per requested range list (one entry without ranges), every one allocated to the pod's key for its UID - also
+    when the same incarnation is bound a second time"""
+    out = []
+    specs = plugincheck.spec_index(h)
+    steps = (o.get("steps") or [])[:nwf]
+    prev = None
+    for si, (op, st) in enumerate(zip(h["ops"], steps)):
+        d = st.get("dump")
+        if d is None:
+            break
+        if prev is not None and op["op"] == "bind" and st.get("res") == "ok":
+            sp = plugincheck.lister_spec(prev, specs, op["ns"], op["name"])
+            if sp is not None:
+                key = plugingen.pod_key(sp)
+                mine = {e[0]: e for e in d["alloc"] if e[1] == key}
+                ips = st.get("ips") or []
+                want = max(1, len(sp.get("Ranges") or []))
+                ok = len(ips) == want and len(st.get("infos") or []) == want and all(x in mine and mine[x][4] == sp["Uid"] for x in ips)
+                out.append((plugincheck.lit(ok), si, "bind_annotation_is_what_ipam_holds", []))
+        prev = d
+    return out
+
+
 def run(ctx):
     rng = ctx.rng
     n_enc = 500 if ctx.quick else 5000
@@ -370,6 +396,9 @@ def run(ctx):
     if obs is None:
         return
     daemon_phase(ctx, rng, 40 if ctx.quick else 400)
+    # galaxy-ipam's side of the hand-over: the annotation Bind writes (real FloatingIPPlugin vs Model/Plugin.v, regression and
+    # incarnation scenarios incl. a second Bind of the same incarnation after a failed pods/binding call)
+    plugincheck.run(ctx, "C13", [], [], mon_c13_bind, nrandom=(40, 400), per_config=(1, 2))
     corr, idx_corr, mons, mon_info = [], [], [], []
     for i, (c, o) in enumerate(zip(cases, obs)):
         ctx.count(c)
